@@ -221,6 +221,8 @@ if pid == 0:
         attrs = termios.tcgetattr(f)
         if e[0] == '+': attrs[3] |= LFLAGS[e[1:]]
         elif e[0] == '-': attrs[3] &= ~LFLAGS[e[1:]]
+        elif e.startswith('vmin='): attrs[6][termios.VMIN] = int(e[5:])    # control characters are terminal mode too
+        elif e.startswith('vtime='): attrs[6][termios.VTIME] = int(e[6:])
         termios.tcsetattr(f, termios.TCSADRAIN, attrs)
     ok = True
     for i, e in enumerate(%(edits)r):
@@ -237,6 +239,7 @@ if pid == 0:
         r['restored'] = (before == after)
         if not r['restored']:
             r['lflag_before'], r['lflag_after'] = before[3], after[3]
+            r['cc_diff'] = [i for i, (x, y) in enumerate(zip(before[6], after[6])) if x != y]
         ok = ok and r['restored']
         out['runs'].append(r)
     out.update(restored=ok, cbreak_during=seen.get('cbreak_during'))
@@ -265,8 +268,8 @@ def tty_case(case):
     if not out.get("restored"):
         bad = [(i, r) for i, r in enumerate(out["runs"]) if not r["restored"]]
         i, r = bad[0]
-        return "[tty-not-restored] terminal attributes after command %d of %d differ from those just before it (edit before it: %r; lflag %s -> %s)" % (
-            i + 1, len(out["runs"]), r["edit"], r.get("lflag_before"), r.get("lflag_after")), out
+        return "[tty-not-restored] terminal attributes after command %d of %d differ from those just before it (edit before it: %r; lflag %s -> %s; control characters differing: %s)" % (
+            i + 1, len(out["runs"]), r["edit"], r.get("lflag_before"), r.get("lflag_after"), r.get("cc_diff")), out
     return None, out
 
 
@@ -310,9 +313,9 @@ def run(ctx):
                 out.fail(c, why)
     out.extra["accounting"] = acct
     tt = {}
-    hist = [[""], ["", "-echo", "+echo"], ["-isig", "", "+isig", "-echo"]]
+    hist = [[""], ["", "-echo", "+echo"], ["-isig", "", "+isig", "-echo"], ["vtime=7", "vmin=0", "-echo", "vmin=4"]]
     if ctx.thorough or ctx.escalated:
-        hist += [[rng.choice(["", "-echo", "+echo", "-isig", "+isig", "-echoe", "+echoe", "-iexten", "+iexten"])
+        hist += [[rng.choice(["", "-echo", "+echo", "-isig", "+isig", "-echoe", "+echoe", "-iexten", "+iexten", "vmin=0", "vmin=3", "vtime=5", "vtime=0"])
                   for _ in range(rng.randint(2, 5))] for _ in range(6)]
     for cmd, edits in [("head -c 3", hist[0]), ("head -c 3; exit 2", hist[0])] + [("head -c 3", h) for h in hist[1:]]:
         c = {"tty": True, "cmd": cmd, "edits": edits}
